@@ -65,6 +65,7 @@ func cases(run *vf.Run) ([]json.RawMessage, error) {
 	out = append(out, vf.Spec(spec{Kind: "demo-F1", Seed: 101, Cfg: base}))
 	out = append(out, vf.Spec(spec{Kind: "demo-F2", Seed: 102, Cfg: base}))
 	out = append(out, vf.Spec(spec{Kind: "demo-F3", Seed: 103, Cfg: base}))
+	out = append(out, vf.Spec(spec{Kind: "demo-F19", Seed: 119, Cfg: base}))
 	for i := 0; i < n; i++ {
 		rng := rand.New(rand.NewSource(vf.SubSeed(run.Seed, "C04", i)))
 		cfg := hist.RandomConfig(rng)
@@ -94,6 +95,9 @@ type world struct {
 	shapes  []string
 	lostLoc bool
 	offCommits int
+	// snapAhead: at a moment local LTX state was lost, the replica held a file at
+	// level>=1 whose MaxTXID exceeded its highest level-0 TXID (known finding F19)
+	snapAhead bool
 }
 
 func (w *world) scanL0() (max int, v string) {
@@ -116,6 +120,31 @@ func (w *world) scanL0() (max int, v string) {
 
 func (w *world) ls() *litestream.DB { return w.LS }
 
+// noteLocalStateLost evaluates the F19 predicate on the replica listing.
+func (w *world) noteLocalStateLost() {
+	w.lostLoc = true
+	l0 := 0
+	for _, f := range oracle.ListLevel(w.RepPath, 0) {
+		if f.Max > l0 {
+			l0 = f.Max
+		}
+	}
+	for _, f := range oracle.ListAll(w.RepPath) {
+		if f.Level >= 1 && f.Max > l0 {
+			w.snapAhead = true
+			w.Logf("replica holds %s beyond its highest level-0 TXID %d while local state is lost", f, l0)
+			w.res.Count("local_state_lost_with_snapshot_ahead_of_l0", 1)
+		}
+	}
+}
+
+func (w *world) suffix() string {
+	if w.snapAhead {
+		return ":snapshot-ahead-of-l0-at-reset"
+	}
+	return ""
+}
+
 // ackCheck: acknowledged sync + oracles (a),(b),(c).
 func (w *world) ackCheck(tag string, mustAdvanceFrom int) bool {
 	ctx := context.Background()
@@ -134,7 +163,7 @@ func (w *world) ackCheck(tag string, mustAdvanceFrom int) bool {
 	if err != nil {
 		w.res.Count("ack_failed_after_disturbance", 1)
 		w.res.Evals++
-		w.res.Violate("no-ack-after-disturbance", "%s: SyncAndWait keeps failing after the disturbance (3 attempts): %v -- replication does not resume without manual intervention [%s]", tag, err, w.s.Cfg)
+		w.res.Violate("no-ack-after-disturbance"+w.suffix(), "%s: SyncAndWait keeps failing after the disturbance (3 attempts): %v -- replication does not resume without manual intervention [%s]", tag, err, w.s.Cfg)
 		return true
 	}
 	pos, perr := w.LS.Pos()
@@ -145,12 +174,12 @@ func (w *world) ackCheck(tag string, mustAdvanceFrom int) bool {
 	max, v := w.scanL0()
 	w.res.Evals++
 	if v != "" {
-		w.res.Violate("l0-replaced", "%s: %s", tag, v)
+		w.res.Violate("l0-replaced"+w.suffix(), "%s: %s", tag, v)
 		return true
 	}
 	rmax := oracle.MaxTXID(w.RepPath)
 	if rmax < int(pos.TXID) {
-		w.res.Violate("success-but-replica-behind", "%s: SyncAndWait returned nil but the replica's highest TXID is %d while the database position is %d", tag, rmax, pos.TXID)
+		w.res.Violate("success-but-replica-behind"+w.suffix(), "%s: SyncAndWait returned nil but the replica's highest TXID is %d while the database position is %d", tag, rmax, pos.TXID)
 		return true
 	}
 	_ = max
@@ -158,7 +187,7 @@ func (w *world) ackCheck(tag string, mustAdvanceFrom int) bool {
 		w.res.HarnessErr = herr.Error()
 		return true
 	} else if v != "" {
-		key := "ack-restore-differs-after-disturbance"
+		key := "ack-restore-differs-after-disturbance" + w.suffix()
 		w.res.Violate(key, "%s [%s] shapes=%v", v, w.s.Cfg, w.shapes)
 		return true
 	}
@@ -311,7 +340,7 @@ func (w *world) disturb(kind string) error {
 		if err := w.closeLS(); err != nil {
 			return fmt.Errorf("close: %w", err)
 		}
-		w.lostLoc = true
+		w.noteLocalStateLost()
 		if err := os.RemoveAll(w.LS.MetaPath()); err != nil {
 			return err
 		}
@@ -323,7 +352,7 @@ func (w *world) disturb(kind string) error {
 		if err := w.closeLS(); err != nil {
 			return fmt.Errorf("close: %w", err)
 		}
-		w.lostLoc = true
+		w.noteLocalStateLost()
 		if err := w.NewLS().ResetLocalState(ctx); err != nil {
 			return err
 		}
@@ -332,13 +361,19 @@ func (w *world) disturb(kind string) error {
 		}
 		return w.restartNewObject()
 	case "reset-at-runtime":
-		w.lostLoc = true
 		if w.rng.Intn(2) == 0 {
 			if _, err := w.AppWriteKind("ins-small"); err != nil {
 				return err
 			}
 			_ = w.LS.Sync(ctx) // a local L0 file not yet uploaded is lost by the reset
+			if w.rng.Intn(3) == 0 {
+				// ... and a snapshot may already advertise that position on the replica
+				if _, err := w.LS.Snapshot(ctx); err == nil {
+					w.res.Count("snapshot_before_l0_upload", 1)
+				}
+			}
 		}
+		w.noteLocalStateLost()
 		if err := w.LS.ResetLocalState(ctx); err != nil {
 			return err
 		}
@@ -373,13 +408,13 @@ func (w *world) disturb(kind string) error {
 		var le *litestream.LTXError
 		w.Logf("Replica.Sync with missing local L0 %s err=%v", p, err)
 		if err != nil && errors.As(err, &le) && le.IsAutoRecoverable() {
-			w.lostLoc = true
+			w.noteLocalStateLost()
 			w.res.Count("auto_recover_triggered", 1)
 			return w.LS.ResetLocalState(ctx)
 		}
 		if err != nil {
 			// not auto-recoverable: the daemon would keep retrying; nothing more to do here
-			w.lostLoc = true
+			w.noteLocalStateLost()
 			return w.LS.ResetLocalState(ctx)
 		}
 		return nil
@@ -509,7 +544,7 @@ func runCase(run *vf.Run, raw json.RawMessage, dir string) *vf.Result {
 	herr := func(err error) *vf.Result { res.HarnessErr = err.Error(); return res }
 
 	switch s.Kind {
-	case "demo-F1", "demo-F2", "demo-F3":
+	case "demo-F1", "demo-F2", "demo-F3", "demo-F19":
 		if v := runDemo(w, s.Kind); v != nil {
 			return herr(v)
 		}
@@ -636,6 +671,37 @@ func runDemo(w *world, kind string) error {
 		w.offCommits += 5
 		if err := w.restartNewObject(); err != nil {
 			return err
+		}
+	case "demo-F19":
+		// ack; app commit; DB.Sync only (L0/n local, not uploaded); Snapshot (L9/1-n uploaded);
+		// ResetLocalState; multi-page app commits; acks. TXID n is re-issued with other content
+		// below the snapshot that already advertises it (known finding F19).
+		w.shapes = append(w.shapes, "reset-at-runtime", "snapshot-before-l0-upload")
+		if _, err := w.writeTable("t0"); err != nil {
+			return err
+		}
+		if err := w.LS.Sync(ctx); err != nil {
+			return err
+		}
+		if _, err := w.LS.Snapshot(ctx); err != nil {
+			return err
+		}
+		w.noteLocalStateLost()
+		if err := w.LS.ResetLocalState(ctx); err != nil {
+			return err
+		}
+		for i := 0; i < 2; i++ {
+			if _, err := w.W.Exec(`INSERT INTO t1(v) VALUES(zeroblob(9000)); UPDATE ledger SET k=k+1;`); err != nil {
+				return err
+			}
+			w.K++
+			if err := w.Record(); err != nil {
+				return err
+			}
+			w.offCommits++
+			if w.ackCheck(fmt.Sprintf("after reset, write %d", i+1), 0) {
+				return nil
+			}
 		}
 	case "demo-F3":
 		// acks to TXID n; ResetLocalState at run time; app write; ack
